@@ -38,7 +38,7 @@ class Pipe:
                 mp = [tuple(x) for x in form]
                 suffix = ''.join(';' + (s if s == d else f'{s}>{d}') for s, d in mp)
             eph = inp.get('eph', 0)
-            srcs.append(addr + suffix + '?' * eph)
+            srcs.append(addr + '?' * eph + suffix)      # the ephemeral marker belongs to the address, topics follow
             self.edges.append({'cons': nid, 'pub': inp['pub'], 'out': inp.get('out', 0), 'form': form, 'map': mp, 'eph': eph})
         cfg = {'sources': srcs}
         if role != 'sink' or nout and kw.pop('sink_outputs', False):
